@@ -39,6 +39,13 @@ pub trait ClientMsg: WriteXml + Debug {
         let mut buf = Vec::new();
         let mut writer = Writer::new(&mut buf);
         self.write_xml(&mut writer)?;
+        // with end-of-message framing the marker must not occur inside the message (it can, in
+        // a comment or attribute value of a caller-supplied fragment): the peer would split it
+        if memchr::memmem::find(&buf, MARKER).is_some() {
+            return Err(WriteError::Other(
+                "message content contains the end-of-message marker ']]>]]>'".into(),
+            ));
+        }
         buf.extend_from_slice(MARKER);
         Ok(String::from_utf8(buf)?)
     }
